@@ -405,6 +405,13 @@ func (f *functionCaller) CallFunction(name string, arguments []interface{}, intr
 	if !ok {
 		return nil, errors.New("unknown function: " + name)
 	}
+	// Typed slices ([]string, []T, ...) are accepted wherever an array is;
+	// hand them to the type checks and handlers as []interface{}.
+	for i, arg := range arguments {
+		if _, ok := arg.([]interface{}); !ok && isSliceType(arg) {
+			arguments[i] = toGenericSlice(arg)
+		}
+	}
 	resolvedArgs, err := entry.resolveArgs(arguments)
 	if err != nil {
 		return nil, err
@@ -415,6 +422,16 @@ func (f *functionCaller) CallFunction(name string, arguments []interface{}, intr
 		resolvedArgs = append(extra, resolvedArgs...)
 	}
 	return entry.handler(resolvedArgs)
+}
+
+// toGenericSlice copies a slice of any element type into a []interface{}.
+func toGenericSlice(value interface{}) []interface{} {
+	v := reflect.ValueOf(value)
+	converted := make([]interface{}, v.Len())
+	for i := range converted {
+		converted[i] = reflectedValue(v.Index(i))
+	}
+	return converted
 }
 
 func jpfAbs(arguments []interface{}) (interface{}, error) {
